@@ -377,3 +377,180 @@ Proof.
     eapply (V m' m); [|exact E]. destruct (check_cost _ m'); cbn [bind] in *; [exact E'|discriminate E'].
   - apply HK.
 Qed.
+
+(* ---- division family ---- *)
+Ltac div_cm op :=
+  apply valrel_op; intros f f' a _; unfold op; cbv zeta;
+  destruct (get_args2 a) as [[v0 v1]|]; cbn [bind]; [|apply valrel_err_l];
+  destruct (int_atom_lazy v0) as [[b0 l0]|]; cbn [bind]; [|apply valrel_err_l];
+  destruct (int_atom_lazy v1) as [[b1 l1]|]; cbn [bind]; [|apply valrel_err_l];
+  destruct (f_disable_op f && _ && _); [apply valrel_err_l|];
+  destruct (f_limits f && _ && _); [apply valrel_err_l|];
+  destruct (f_disable_op f' && _ && _); [apply valrel_err_r|];
+  destruct (f_limits f' && _ && _); [apply valrel_err_r|];
+  apply valrel_bind2; intros cost cost'; apply valrel_check;
+  destruct (_ =? _)%Z; [apply valrel_err_l|]; unfold malloc_cost; apply valrel_ret.
+
+Lemma div_num_cm_indep : op_cm_indep op_div_num. Proof. div_cm op_div_num. Qed.
+Lemma divmod_num_cm_indep : op_cm_indep op_divmod_num. Proof. div_cm op_divmod_num. Qed.
+Lemma mod_num_cm_indep : op_cm_indep op_mod_num. Proof. div_cm op_mod_num. Qed.
+
+Lemma modpow_num_cm_indep : op_cm_indep op_modpow_num.
+Proof.
+  apply valrel_op; intros f f' a _; unfold op_modpow_num; cbv zeta.
+  destruct (get_args3 a) as [[[v0 v1] v2]|]; cbn [bind]; [|apply valrel_err_l].
+  destruct (int_atom_lazy v0) as [[b0 l0]|]; cbn [bind]; [|apply valrel_err_l].
+  destruct (int_atom_lazy v1) as [[b1 l1]|]; cbn [bind]; [|apply valrel_err_l].
+  destruct (int_atom_lazy v2) as [[b2 l2]|]; cbn [bind]; [|apply valrel_err_l].
+  apply valrel_bind2; intros cost cost'; apply valrel_check.
+  destruct (f_limits f && _ && _); [apply valrel_err_l|].
+  destruct (f_limits f' && _ && _); [apply valrel_err_r|].
+  destruct (_ <? _)%Z; [apply valrel_err_l|]. destruct (_ =? _)%Z; [apply valrel_err_l|].
+  unfold malloc_cost. apply valrel_ret.
+Qed.
+
+Lemma cm_ext (op op' : opfn) : (forall f a m, op f a m = op' f a m) -> op_cm_indep op' -> op_cm_indep op.
+Proof. intros E H f f' a m m' c v c' v' Hs. rewrite !E. apply H. exact Hs. Qed.
+Lemma div_cm_indep : op_cm_indep op_div. Proof. eapply cm_ext; [apply div_is_num|apply div_num_cm_indep]. Qed.
+Lemma divmod_cm_indep : op_cm_indep op_divmod. Proof. eapply cm_ext; [apply divmod_is_num|apply divmod_num_cm_indep]. Qed.
+Lemma mod_cm_indep : op_cm_indep op_mod. Proof. eapply cm_ext; [apply mod_is_num|apply mod_num_cm_indep]. Qed.
+Lemma modpow_cm_indep : op_cm_indep op_modpow. Proof. eapply cm_ext; [apply modpow_is_num|apply modpow_num_cm_indep]. Qed.
+
+(* ---- sha256 / sha256tree: the hashed bytes do not depend on the cost constants ---- *)
+Lemma sha256_loop_valrel a : forall pa pb cost pa' pb' cost' terms,
+  valrel
+    (fun m => (fix loop (args : sexp) (cost : N) (terms : list bytes) : res (N * list bytes) :=
+       match args with
+       | Atom _ => Ok (cost, terms)
+       | Cons arg rest =>
+           let cost := cost + pa in
+           match arg with
+           | Cons _ _ => bad_arg
+           | Atom b => let cost := cost + blen b * pb in do _ <- check_cost cost m; loop rest cost (b :: terms)
+           end
+       end) a cost terms)
+    (fun m => (fix loop (args : sexp) (cost : N) (terms : list bytes) : res (N * list bytes) :=
+       match args with
+       | Atom _ => Ok (cost, terms)
+       | Cons arg rest =>
+           let cost := cost + pa' in
+           match arg with
+           | Cons _ _ => bad_arg
+           | Atom b => let cost := cost + blen b * pb' in do _ <- check_cost cost m; loop rest cost (b :: terms)
+           end
+       end) a cost' terms).
+Proof.
+  induction a as [b|x _ r IH]; intros; cbv zeta.
+  - apply valrel_ret.
+  - destruct x as [b|]; [|apply valrel_err_l]. apply valrel_check. apply IH.
+Qed.
+
+Lemma sha256_cm_indep H : op_cm_indep (op_sha256 H).
+Proof.
+  apply valrel_op. intros f f' a _. unfold op_sha256.
+  destruct (if f_new_cost_model f then _ else _) as [[bc pa] pb].
+  destruct (if f_new_cost_model f' then _ else _) as [[bc' pa'] pb']. cbv zeta.
+  eapply valrel_post; [apply sha256_loop_valrel|].
+  intros c c' y C V C' V' E E'. cbn beta iota in E, E'. unfold atom_and_cost in *.
+  apply Ok_inj2 in E. apply Ok_inj2 in E'. congruence.
+Qed.
+
+Lemma tree_hash_walk_value H t : forall pb cost m c h pb' cost' m' c' h',
+  tree_hash_walk H pb t cost m = Ok (c, h) -> tree_hash_walk H pb' t cost' m' = Ok (c', h') -> h = h'.
+Proof.
+  induction t as [b|l IHl r IHr]; intros pb cost m c h pb' cost' m' c' h' E E'; cbn [tree_hash_walk] in *; cbv zeta in *.
+  - destruct (check_cost _ m); cbn [bind] in E; [|discriminate E].
+    destruct (check_cost _ m'); cbn [bind] in E'; [|discriminate E'].
+    apply Ok_inj2 in E. apply Ok_inj2 in E'. congruence.
+  - destruct (check_cost _ m); cbn [bind] in E; [|discriminate E].
+    destruct (check_cost _ m'); cbn [bind] in E'; [|discriminate E'].
+    destruct (tree_hash_walk H pb r _ m) as [[c1 hr]|] eqn:Er; cbn [bind] in E; [|discriminate E].
+    destruct (tree_hash_walk H pb' r _ m') as [[c1' hr']|] eqn:Er'; cbn [bind] in E'; [|discriminate E'].
+    destruct (tree_hash_walk H pb l _ m) as [[c2 hl]|] eqn:El; cbn [bind] in E; [|discriminate E].
+    destruct (tree_hash_walk H pb' l _ m') as [[c2' hl']|] eqn:El'; cbn [bind] in E'; [|discriminate E'].
+    apply Ok_inj2 in E. apply Ok_inj2 in E'.
+    rewrite (IHr _ _ _ _ _ _ _ _ _ _ Er Er'), (IHl _ _ _ _ _ _ _ _ _ _ El El') in E. congruence.
+Qed.
+
+Lemma sha256_tree_cm_indep H : op_cm_indep (op_sha256_tree H).
+Proof.
+  intros f f' a m m' c v c' v' _ E E'. unfold op_sha256_tree, tree_hash_costed in *. cbv zeta in *.
+  destruct (get_args1 a) as [n|]; cbn [bind] in *; [|discriminate E].
+  destruct (tree_hash_walk H _ n _ m) as [[c0 h]|] eqn:W; cbn [bind] in E; [|discriminate E].
+  destruct (tree_hash_walk H _ n _ m') as [[c0' h']|] eqn:W'; cbn [bind] in E'; [|discriminate E'].
+  destruct (check_cost _ m); cbn [bind] in E; [|discriminate E].
+  destruct (check_cost _ m'); cbn [bind] in E'; [|discriminate E'].
+  apply Ok_inj2 in E. apply Ok_inj2 in E'. rewrite (tree_hash_walk_value _ _ _ _ _ _ _ _ _ _ _ _ W W') in E. congruence.
+Qed.
+
+(* ---- logand / logior / logxor: split accumulators (old) vs one accumulator (new) ---- *)
+Section Logic.
+  Variable opf : Z -> Z -> Z.
+  Hypothesis opf_assoc : forall a b c, opf a (opf b c) = opf (opf a b) c.
+  Hypothesis opf_comm : forall a b, opf a b = opf b a.
+
+  (* the value an accumulator state stands for *)
+  Definition acc_value (ncm : bool) (p n : Z) : Z := if ncm then p else opf p n.
+
+  Lemma binop_loop_value a : forall ncm cost p n m c p1 n1 ncm' cost' p' n' m' c' p1' n1',
+    acc_value ncm p n = acc_value ncm' p' n' ->
+    binop_loop ncm opf a cost p n m = Ok (c, (p1, n1)) ->
+    binop_loop ncm' opf a cost' p' n' m' = Ok (c', (p1', n1')) ->
+    acc_value ncm p1 n1 = acc_value ncm' p1' n1'.
+  Proof.
+    induction a as [b|x _ r IH]; intros ncm cost p n m c p1 n1 ncm' cost' p' n' m' c' p1' n1' Hv E E';
+      cbn [binop_loop] in E, E'.
+    - apply Ok_inj2 in E. apply Ok_inj2 in E'. inversion E; inversion E'; subst. exact Hv.
+    - destruct x as [b|]; [|discriminate E]. cbv zeta in E, E'.
+      destruct (check_cost _ m); cbn [bind] in E; [|discriminate E].
+      destruct (check_cost _ m'); cbn [bind] in E'; [|discriminate E'].
+      set (x := int_of_bytes b) in *.
+      assert (Hstep : forall nc p0 n0,
+                acc_value nc (if nc then opf p0 x else if (x <? 0)%Z then p0 else opf p0 x)
+                             (if nc then n0 else if (x <? 0)%Z then opf n0 x else n0)
+                = opf (acc_value nc p0 n0) x).
+      { intros nc p0 n0. unfold acc_value. destruct nc; [reflexivity|]. destruct (x <? 0)%Z.
+        - apply opf_assoc.
+        - rewrite <- !opf_assoc. f_equal. apply opf_comm. }
+      destruct ncm, ncm'.
+      + eapply IH; [|exact E|exact E']. pose proof (Hstep true p n) as S1. pose proof (Hstep true p' n') as S2.
+        cbn in S1, S2. unfold acc_value in *. congruence.
+      + destruct (x <? 0)%Z eqn:Ex.
+        * eapply IH; [|exact E|exact E']. pose proof (Hstep true p n) as S1. pose proof (Hstep false p' n') as S2.
+          try rewrite Ex in S2. unfold acc_value in *. cbn in *. congruence.
+        * eapply IH; [|exact E|exact E']. pose proof (Hstep true p n) as S1. pose proof (Hstep false p' n') as S2.
+          try rewrite Ex in S2. unfold acc_value in *. cbn in *. congruence.
+      + destruct (x <? 0)%Z eqn:Ex.
+        * eapply IH; [|exact E|exact E']. pose proof (Hstep false p n) as S1. pose proof (Hstep true p' n') as S2.
+          try rewrite Ex in S1. unfold acc_value in *. cbn in *. congruence.
+        * eapply IH; [|exact E|exact E']. pose proof (Hstep false p n) as S1. pose proof (Hstep true p' n') as S2.
+          try rewrite Ex in S1. unfold acc_value in *. cbn in *. congruence.
+      + destruct (x <? 0)%Z eqn:Ex.
+        * eapply IH; [|exact E|exact E']. pose proof (Hstep false p n) as S1. pose proof (Hstep false p' n') as S2.
+          try rewrite Ex in S1; try rewrite Ex in S2. unfold acc_value in *. cbn in *. congruence.
+        * eapply IH; [|exact E|exact E']. pose proof (Hstep false p n) as S1. pose proof (Hstep false p' n') as S2.
+          try rewrite Ex in S1; try rewrite Ex in S2. unfold acc_value in *. cbn in *. congruence.
+  Qed.
+
+  Lemma binop_reduction_cm_indep iv : opf iv iv = iv -> op_cm_indep (binop_reduction iv opf).
+  Proof.
+    intros Hiv f f' a m m' c v c' v' _ E E'. unfold binop_reduction in *. cbv zeta in *.
+    destruct (binop_loop (f_new_cost_model f) opf a _ _ _ m) as [[c0 [p n]]|] eqn:L; cbn [bind] in E; [|discriminate E].
+    destruct (binop_loop (f_new_cost_model f') opf a _ _ _ m') as [[c0' [p' n']]|] eqn:L'; cbn [bind] in E'; [|discriminate E'].
+    unfold malloc_cost in *. apply Ok_inj2 in E. apply Ok_inj2 in E'.
+    assert (Hv : acc_value (f_new_cost_model f) p n = acc_value (f_new_cost_model f') p' n').
+    { eapply binop_loop_value; [|exact L|exact L']. unfold acc_value.
+      destruct (f_new_cost_model f), (f_new_cost_model f'); congruence. }
+    unfold acc_value in Hv. inversion E; inversion E'; subst. rewrite Hv. reflexivity.
+  Qed.
+End Logic.
+
+Lemma logand_cm_indep : op_cm_indep op_logand.
+Proof. apply binop_reduction_cm_indep; [apply Z.land_assoc|apply Z.land_comm|reflexivity]. Qed.
+Lemma logior_cm_indep : op_cm_indep op_logior.
+Proof. apply binop_reduction_cm_indep; [apply Z.lor_assoc|apply Z.lor_comm|reflexivity]. Qed.
+Lemma logxor_cm_indep : op_cm_indep op_logxor.
+Proof.
+  apply binop_reduction_cm_indep; [|apply Z.lxor_comm|reflexivity].
+  intros a b c. symmetry. apply Z.lxor_assoc.
+Qed.
